@@ -75,6 +75,11 @@ CHECKS = {
    text="Generated-input search: 85 templates (group arrays of 1..4 and tuple groups alone / under choice / or_not, collect_exactly over repeated / separated_by with every bounds shape, into_iter() into fixed-size arrays with too few / exact / too many items, folds, recovery, validate + filter, and_is / rewind) x every string over {a,b,c} up to length 6 (quick) / 8 (thorough), rotating over &str, &[TrackedTok] and Stream<TrackedTok>, plus 400k / 5M random C01/C02-class grammars with tracked-value mappers at random nodes; parse and check; after each run the ledger must balance exactly (no leak, no double drop, tokens neither lost nor duplicated). Exploration within these bounds.",
    note="No reference semantics involved. F1 (group([..;N]) leaked its initialised prefix) was found by this check and fixed in /repo (6cc87d9). The thorough tier's ASan fuzz build is not part of this check (see DESIGN.md, tooling limits).",
    design="DESIGN.md section 4, C19"),
+ "C20": dict(
+   technique="property-based robustness testing / fuzzing of generated (grammar, input, error type) triples in a supervised child process: every panic is caught and reported with its location, a signal-killed child is a violation (re-run single-threaded with a trace file to pin the case), the ParseResult contract and span well-formedness are asserted on every result, and a counting Inspector enforces a deterministic work bound tied to the reference evaluator's evaluation count (polynomial time / termination); exhaustive wrapper-x-failing-parser templates + proptest-driven random tier incl. arbitrary Unicode and bytes",
+   text="Generated-input search: 720 templates (10 wrappers -- map_err, map_err_with_state, recover_with x4 strategies, labelled, memoized, stacked -- x 18 ways of failing incl. try_map / custom / Ext rejections, memoized failures, short collect_exactly / into_iter, not, unwrapped x 4 surroundings) x every string over {a,b,c} up to length 4 (quick) / 6 (thorough) plus delimiter and multi-byte strings; 250k / 4M random grammars over every node family with a wrapper at the root, on &str (derived, truncated, random Unicode incl. combining marks, 4-byte and boundary code points) and &[u8] (arbitrary bytes); each with Rich, Simple, Cheap and EmptyErr, parse and check; 40k / 600k random strings through every text::* parser, regex and the Graphemes input. No panic, no crash, contract and spans valid, tokens consumed <= 64 x (reference evaluations + length + 16). Exploration within these bounds.",
+   note="Trusted: the reference's evaluation count as the yardstick of the work bound. Hangs that consume no tokens would only hit the wall-clock watchdog (inconclusive). F8 (zero-sized errors not recorded by add_alt_err), F3 and F9 (failing memoized / collect_exactly leave no pending error) were found here / in C11 / C06 and fixed in /repo. The ASan build of a libFuzzer target is a thorough-tier extra (see DESIGN.md).",
+   design="DESIGN.md section 4, C20"),
 }
 
 NOT_YET = {}
